@@ -26,10 +26,10 @@ STAGES = {
     "C06": [S("e_seq", "asu", 40000, 1200000)],
     "C09": [S("e_seq", "asu", 40000, 1200000), S("e_tbb", "asu", 15000, 400000)],
     "C15": [S("e_seq", "asu", 40000, 1200000)],
-    "C03": [S("e_tbb", "asu", 25000, 800000), S("e_tbb", "tsan", 12000, 400000, gate=False)],
+    "C03": [S("e_tbb", "asu", 18000, 800000), S("e_tbb", "tsan", 5000, 300000, gate=False)],
     "C20": [S("e_knobreal", "asu", 3000, 30000), S("e_tbb", "asu", 12000, 200000), S("e_demo_mcb", "asu", 6000, 100000), S("e_demo_approx", "asu", 6000, 100000)],
-    "C07": [S("e_seq", "asu", 4000, 120000, leakcheck=True), S("e_comp", "asu", 4000, 120000, leakcheck=True), S("e_tbb", "asu", 2500, 80000, leakcheck=True),
-            S("e_mpi", "asu", 2000, 60000, leakcheck=True), S("e_tbb", "tsan", 1500, 40000, gate=False), S("e_mpi", "tsan", 1000, 30000, gate=False),
+    "C07": [S("e_seq", "asu", 4000, 120000, leakcheck=True), S("e_comp", "asu", 4000, 120000, leakcheck=True), S("e_tbb", "asu", 2000, 80000, leakcheck=True),
+            S("e_mpi", "asu", 2000, 60000, leakcheck=True), S("e_tbb", "tsan", 1000, 40000, gate=False), S("e_mpi", "tsan", 800, 30000, gate=False),
             S("e_demo_mcb", "asu", 600, 15000, leakcheck=True), S("e_demo_approx", "asu", 600, 15000, leakcheck=True), S("e_demo_stats", "asu", 400, 8000, leakcheck=True), S("e_demo_mpi", "asu", 600, 15000, leakcheck=True),
             S("e_seq", "plain", 0, 400, wrapper="valgrind", gate=False, nworkers=8), S("e_comp", "plain", 0, 400, wrapper="valgrind", gate=False, nworkers=8)],
     "C11": [S("e_demo_mcb", "asu", 10000, 200000), S("e_demo_approx", "asu", 10000, 200000), S("e_demo_stats", "asu", 4000, 60000), S("e_demo_mpi", "asu", 10000, 200000)],
@@ -128,7 +128,7 @@ class Worker:
     def launch(self, frm):
         self.segments += 1
         cmd = [binary(self.stage), "--prop", self.prop, "--tier", self.stage.get("tier_arg") or self.tier, "--seed", str(self.seed), "--from", str(frm), "--to", str(self.to),
-               "--stride", str(self.stride), "--dir", self.rundir, "--id", str(self.wid), "--wall", str(self.wall)]
+               "--stride", str(self.stride), "--dir", self.rundir, "--id", str(self.wid), "--wall", str(self.wall), "--timeout", "60" if self.tier == "quick" else "300"]
         if self.stage.get("leakcheck"): cmd.append("--leakcheck")
         if self.stage.get("wrapper") == "valgrind":
             cmd = ["valgrind", "-q", "--error-exitcode=99", "--exit-on-first-error=yes", "--num-callers=20"] + cmd + ["--timeout", "900"]
@@ -156,7 +156,7 @@ class Worker:
         rep = {"engine": self.stage["engine"], "flavour": self.stage["flavour"], "seed": self.seed, "run_index": inf["i"], "case": inf["case"], "classes": [cls], "log_tail": text[-3000:]}
         json.dump(rep, open(keep, "w"))
         self.crashes.append((cls, keep, inf["i"], text[-3000:]))
-        if len(self.crashes) > 20:
+        if len(self.crashes) > 20 or len([c for c in self.crashes if c[0] == "hang"]) >= 2:
             return True     # something is thoroughly broken; enough material
         nxt = inf["i"] + self.stride
         if nxt >= self.to: return True
@@ -182,8 +182,13 @@ def run_stage(stage, prop, tier, seed, rundir, nworkers=None):
     while pending:
         pending = [w for w in pending if not w.poll()]
         if time.time() > hard:
-            for w in pending: w.proc.kill()
-            harness_error("stage %s exceeded its hard time limit" % stage["engine"])
+            for w in pending:
+                w.proc.kill(); w.proc.wait()
+                try: w.fo.close(); w.fe.close()
+                except Exception: pass
+            if not any(w.crashes for w in workers):
+                harness_error("stage %s exceeded its hard time limit" % stage["engine"])
+            break
         time.sleep(0.05)
     results, crashes, gate_res = [], [], {}
     for w in allw:
@@ -239,6 +244,9 @@ def replay_once(stage, path):
         return j["classes"], j["event_hash"], j
     return [classify_log(err, rc)], "dead", {"log_tail": err[-2000:]}
 
+class Unattributed(Exception):
+    pass
+
 def minimise_and_confirm(prop, cls, stage, viol_file, replay_dir, prev_file=None):
     os.makedirs(replay_dir, exist_ok=True)
     tmp = os.path.join(os.path.dirname(viol_file), "min-%s-%s.json" % (prop, re.sub(r"[^A-Za-z0-9]+", "_", cls)))
@@ -246,6 +254,10 @@ def minimise_and_confirm(prop, cls, stage, viol_file, replay_dir, prev_file=None
     if (rc != 0 or not os.path.exists(tmp)) and cls == "lsan:leak" and prev_file and os.path.exists(prev_file):
         # LeakSanitizer may notice a block one run late (a stale pointer kept it reachable): try the run before
         rc, out, err = run_tool(stage, ["--minimise", prev_file, "--class", cls, "--out", tmp, "--budget", os.environ.get("VERIF_MIN_BUDGET", "400")], timeout=1800)
+    if (rc != 0 or not os.path.exists(tmp)) and cls == "lsan:leak":
+        # a leak that needs the history of earlier runs in the same worker process (e.g. a function-local
+        # static of the library that survives from run to run) cannot be shown by a single-run replay
+        raise Unattributed("lsan:leak flagged by %s but not reproducible from a single run" % stage["engine"])
     if rc != 0 or not os.path.exists(tmp):
         # the violation did not reproduce in a child process: nondeterminism in the harness, never a report
         harness_error("violation %s of %s did not reproduce during minimisation (rc=%s): %s %s" % (cls, prop, rc, out[-500:], err[-1500:]))
@@ -307,12 +319,19 @@ def check_property(prop, tier, seed, stages=None, extra_cov=None, class_filter=N
     reported = []
     by_class = {}
     for v in real: by_class.setdefault((v[0], v[1]["engine"], v[1]["flavour"]), []).append(v)
-    for (cls, eng, flav), vs in sorted(by_class.items(), key=lambda kv: -len(kv[1]))[:3]:
+    unattributed = []
+    for (cls, eng, flav), vs in sorted(by_class.items(), key=lambda kv: -len(kv[1])):
+        if len(reported) >= 3: break
         vs.sort(key=lambda v: v[3]["i"])
         v = vs[0]
         if not v[2]: harness_error("violation without a case file")
-        final, rep = minimise_and_confirm(prop, cls, v[1], v[2], os.environ.get("VERIF_REPLAYS", os.path.join(VERIF, "replays")), v[3].get("viol_file_prev"))
+        try:
+            final, rep = minimise_and_confirm(prop, cls, v[1], v[2], os.environ.get("VERIF_REPLAYS", os.path.join(VERIF, "replays")), v[3].get("viol_file_prev"))
+        except Unattributed as ex:
+            unattributed.append(str(ex)); continue
         reported.append((cls, final, len(vs), rep))
+    if unattributed and not reported:
+        harness_error("; ".join(unattributed))
     wall = time.time() - t_start
     write_evidence(prop, tier, seed, all_results, stage_info, reported, known_hits, wall, bt, gate_total, crash_other, extra_cov)
     if post: post(all_results)
